@@ -192,6 +192,15 @@ func (c14) RunCase(c fw.Case, env *fw.Env) *fw.CaseResult {
 	plan := models.UserPlan{Name: "p", MaxCollections: 5, MaxCollectionPointCount: 100000, MaxPointSize: 1 << 16}
 	plans := map[string]models.UserPlan{"P": plan}
 	mkNode := func(i int, servers []string, faultEnv string) *httpx.ProcNode {
+		// every node is configured with the same SET of servers in its own order (itself first, the
+		// others rotated): which server owns a key must not depend on the order of the list
+		for k, name := range servers {
+			if name == names[i] {
+				rot := append([]string{}, servers[k:]...)
+				servers = append(rot, servers[:k]...)
+				break
+			}
+		}
 		spec := httpx.NodeSpec{HTTPPort: ports[6+i], Plans: plans, Cluster: cluster.ClusterNodeConfig{
 			RootDir: dirs[i], RpcHost: "localhost", RpcPort: ports[i], RpcTimeout: 30, RpcRetries: 3, Servers: servers,
 			ShardManager: cluster.ShardManagerConfig{RootDir: dirs[i], ShardTimeout: 300, MaxCacheSize: -1},
